@@ -56,9 +56,11 @@ def err_text(M, e):
     raise Unsupported('error text of %r' % (e,))
 
 
-@intr('invoke:?.Error')
 def _err_invoke(M, a):
     return a[0].msg
+
+
+INTR['invoke:%d.Error' % ERR_T] = _err_invoke
 
 
 # ------------------------------------------------------------------ fmt
